@@ -1228,7 +1228,10 @@ class CParser:
 
     # BNF: enumerator : ID ('=' constant_expression)?
     def _parse_enumerator(self) -> c_ast.Node:
-        name_tok = self._expect("ID")
+        # An enumerator may reuse a typedef name of an enclosing scope.
+        name_tok = self._advance()
+        if name_tok.type not in {"ID", "TYPEID"}:
+            self._parse_error(f"before: {name_tok.value}", self._tok_coord(name_tok))
         if self._accept("EQUALS"):
             value = self._parse_constant_expression()
         else:
